@@ -851,26 +851,25 @@ Proof.
 Qed.
 
 (* ------------------------------------------------------------------ the theorem *)
-Theorem compile_wellformed_partial M o B :
-  compile M o = COk B ->
-  (N.of_nat (length (p_bytecode B)) < 2147483648)%N ->
-  exists is : list instr,
-    p_bytecode B = encode is /\
-    (Forall instr_ok is -> decode (p_bytecode B) = Some (positions is)) /\
-    (exists is', is = is' ++ [IExit]) /\
-    (forall i z, In i is -> jump_target i = Some z ->
-                 (0 <= z)%Z /\ In (Z.to_nat z) (map fst (positions is))) /\
-    (forall h pos, In (h, pos) (p_labels B) -> In (N.to_nat pos) (map fst (positions is))) /\
-    (forall a l, In (a, l) (p_trace B) -> In (N.to_nat a) (map fst (positions is))).
+Definition wf_partial (B : compiled) (is : list instr) : Prop :=
+  p_bytecode B = encode is /\
+  (Forall instr_ok is -> decode (p_bytecode B) = Some (positions is)) /\
+  (exists is', is = is' ++ [IExit]) /\
+  (forall i z, In i is -> jump_target i = Some z ->
+               (0 <= z)%Z /\ In (Z.to_nat z) (map fst (positions is))) /\
+  (forall h pos, In (h, pos) (p_labels B) -> In (N.to_nat pos) (map fst (positions is))) /\
+  (forall a l, In (a, l) (p_trace B) -> In (N.to_nat a) (map fst (positions is))).
+
+Lemma wf_partial_core fs d s :
+  compile_ir fs (init_state d) = ROk tt s ->
+  (N.of_nat (length (p_bytecode (finish s))) < 2147483648)%N ->
+  wf_partial (finish s) (rev (cs_code s)).
 Proof.
-  unfold compile. intros H Hlen.
-  destruct (into_ir_stream M (o_recursion_limit o)) as [e|fs]; [discriminate|].
-  destruct (compile_ir fs (init_state (o_debug o))) as [[] s| | |] eqn:E; try discriminate.
-  injection H as <-.
+  intros E Hlen. unfold wf_partial.
   destruct (compile_ir_before_exit _ _ _ E) as (s0 & HI & Hcode & Hlab & _ & _ & _ & l0 & Htr).
   unfold finish in *. cbn [p_bytecode p_labels p_trace] in *.
   set (code0 := cs_code s0) in *.
-  exists (rev (cs_code s)). rewrite Hcode.
+  rewrite Hcode.
   assert (Hsmall : (bytes code0 < 2147483648)%N).
   { rewrite Hcode, encode_length, nbytes_rev in Hlen. cbn [nbytes] in Hlen.
     rewrite bytes_nbytes. lia. }
@@ -897,4 +896,24 @@ Proof.
   - destruct (inv_trace _ _ HI a l Hin) as [b [Hb ->]].
     pose proof (is_bound_le _ _ Hb) as Hle. fold code0 in Hle.
     unfold two32. rewrite N.mod_small by lia. apply Hstart, Hb.
+Qed.
+
+Lemma compile_ok_inv M o B :
+  compile M o = COk B ->
+  exists fs s, into_ir_stream M (o_recursion_limit o) = inr fs /\
+               compile_ir fs (init_state (o_debug o)) = ROk tt s /\ B = finish s.
+Proof.
+  unfold compile. intros H.
+  destruct (into_ir_stream M (o_recursion_limit o)) as [e|fs]; [discriminate|].
+  destruct (compile_ir fs (init_state (o_debug o))) as [[] s| | |] eqn:E; try discriminate.
+  injection H as <-. eauto.
+Qed.
+
+Theorem compile_wellformed_partial M o B :
+  compile M o = COk B ->
+  (N.of_nat (length (p_bytecode B)) < 2147483648)%N ->
+  exists is : list instr, wf_partial B is.
+Proof.
+  intros H Hlen. destruct (compile_ok_inv _ _ _ H) as (fs & s & _ & E & ->).
+  exists (rev (cs_code s)). apply (wf_partial_core fs _ s E Hlen).
 Qed.
